@@ -1,6 +1,7 @@
 package props
 
 import (
+	"bytes"
 	"crypto/ecdsa"
 	"crypto/ed25519"
 	"crypto/elliptic"
@@ -350,6 +351,22 @@ func hostileBodies(r *mrand.Rand, good []byte, member string) map[string][]byte 
 		"status-number":  []byte(`{"` + member + `":{"id":"TDX","version":3,"tcbLevels":[{"tcbStatus":3}]},"signature":"00"}`),
 		"dup-members":    append(append([]byte(`{"`+member+`":{},`), good[1:len(good)-1]...), []byte(`,"`+member+`":[]}`)...),
 	}
+	// the genuine document (it passes everything that is checked before the signature is decoded) with a signature string of
+	// another length or alphabet
+	if i := bytes.Index(good, []byte(`"signature":"`)); i >= 0 {
+		i += len(`"signature":"`)
+		if n := bytes.IndexByte(good[i:], '"'); n > 0 {
+			sig := string(good[i : i+n])
+			for name, s := range map[string]string{
+				"plus-one-digit": sig + "0", "plus-one-byte": sig + "00", "plus-two-bytes": sig + "0000", "doubled": sig + sig, "minus-one-digit": sig[:n-1], "minus-one-byte": sig[:n-2], "half": sig[:n/2],
+				"empty": "", "upper-case": strings.ToUpper(sig), "0x-prefixed": "0x" + sig, "spaced": sig[:n/2] + " " + sig[n/2:], "plus-non-hex-tail": sig + "zz", "non-hex-at-129": sig + "z0",
+				"der-form":     "3046022100" + sig[:n/2] + "022100" + sig[n/2:],
+				"one-megabyte": strings.Repeat(sig, 8192), "all-f-256": strings.Repeat("f", 256), "all-0-130": strings.Repeat("0", 130), "first-digit-json-escaped": fmt.Sprintf(`\u00%02x`, sig[0]) + sig[1:],
+			} {
+				m["genuine-with-signature-"+name] = []byte(string(good[:i]) + s + string(good[i+n:]))
+			}
+		}
+	}
 	for _, cut := range []int{1, len(good) / 3, len(good) / 2, len(good) - 2, len(good) - 1} {
 		if cut > 0 && cut < len(good) {
 			m[fmt.Sprintf("truncated@%d", cut)] = good[:cut]
@@ -607,7 +624,11 @@ func c10(x *mon.Ctx) {
 		if member == "" {
 			member = "tcbInfo"
 		}
-		for name, body := range hostileBodies(x.Rand("bodies"+s.url), cs.Resp[slots[0].url].B, member) {
+		src := cs.Resp[slots[0].url].B
+		if s.member != "" {
+			src = good.B // the slot's own genuine document
+		}
+		for name, body := range hostileBodies(x.Rand("bodies"+s.url), src, member) {
 			c := cs.Clone()
 			c.Class, c.Param = "hostile-body", s.url+"#"+name
 			c.Resp[s.url] = world.Resp{H: good.H, B: body}
